@@ -89,6 +89,11 @@ CHECKS["C05"] = dict(
     text="Exhaustive within the bound: all raw command sequences to depth 4 (quick) / 5 (thorough) on the reference (sanity), all 960 cursor addresses, all 176 character codes in first/middle/last position, all 5600 structured caption loads in both doubling modes; random programs of 1-3 captions x 1-4 rows beyond. Per caption TLC compares lines (mid-row cell = optional space), italic flag per character, balance and the (row, column) -> percentage position. One open known finding (position tracker surviving End-Of-Caption) is re-validated with exactly that deviation enabled.",
     design="4 C05")
 
+CHECKS["C06"] = dict(
+    technique="TLA+ spec Scc608.tla (timing part): TLC checks the design model of SCCReader's pop-on timing (queue, batch rule with the five-frame comparison, four-second default) against the requirement on every event sequence of <= 3 captions (MC_SccTiming) and judges the start/end of every caption SCCReader returns against the frame of the End-Of-Caption / Erase word computed from the abstract program in exact arithmetic (Trace_Scc)",
+    text="Exhaustive over all event sequences of <= 3 captions with gaps 0..8 / 40 frames and erases after 30..32 frames or none (design model), and over a replay grid 1-3 captions x erase inline / separate / absent x gap 0-8 frames x drop / non-drop x single / doubled x offset 0-2 s plus flash captions; random programs up to 23:59:59:29 with random offsets beyond. Exact arithmetic in thirds of a microsecond (BigNat), 2 ns tolerance for the reader's floats; the timing error is demanded exactly when a displayed duration is below 50 ms.",
+    design="4 C06")
+
 NOT_YET = {}
 
 
